@@ -27,6 +27,7 @@ type Pkg struct {
 
 type Engine struct {
 	fset     *token.FileSet
+	funcNames map[string]bool
 	pkgs     map[string]*Pkg
 	prelude  *ContractFile
 	guards   []*Guard
@@ -516,7 +517,22 @@ func (fc *FnCtx) staleClauses(p *Pkg, key string) []string {
 			}
 		}
 	}
-	chk("callpre", ct.CallPre)
+	// callpre on a NAMED function is exempt: if its last call site is gone, a call was removed (a change of behaviour
+	// the other obligations have to judge), whereas a function-VALUE key is the text of a variable that may simply
+	// have been renamed
+	fv := map[string][]Clause{}
+	for k, v := range ct.CallPre {
+		base := k
+		if i := strings.LastIndex(k, "."); i > 0 {
+			if _, err := strconv.Atoi(k[i+1:]); err == nil {
+				base = k[:i]
+			}
+		}
+		if !fc.eng.isFuncName(base) && !strings.HasPrefix(base, "(") {
+			fv[k] = v
+		}
+	}
+	chk("callpre", fv)
 	chk("sendpre", ct.SendPre)
 	chk("storepre", ct.StorePre)
 	chk("writepre", ct.WritePre)
@@ -963,4 +979,27 @@ func (fc *FnCtx) checkWakeup(st *State, body *ast.BlockStmt, want string) {
 		})
 	}
 	walk(body)
+}
+
+// isFuncName: some function or method of that name is declared or referenced in the loaded packages.
+func (eng *Engine) isFuncName(name string) bool {
+	if eng.funcNames == nil {
+		eng.funcNames = map[string]bool{}
+		for _, p := range eng.pkgs {
+			if p.TypesInfo == nil {
+				continue
+			}
+			for _, o := range p.TypesInfo.Defs {
+				if f, ok := o.(*types.Func); ok {
+					eng.funcNames[f.Name()] = true
+				}
+			}
+			for _, o := range p.TypesInfo.Uses {
+				if f, ok := o.(*types.Func); ok {
+					eng.funcNames[f.Name()] = true
+				}
+			}
+		}
+	}
+	return eng.funcNames[name]
 }
